@@ -37,11 +37,12 @@ def obligations(tier, ctx):
                       call=f"H.corpus_entry({which}, c, a, e)", backend="P", timeout=300, family="command/argument corpus by symbolic index (Pydantic backend)"))
     from symcheck import consts
     nsz = len(consts.size_cases(70000, extra=(4096, 8192, 65536, 131072)))
-    nc = len(consts.size_cases(1100))
+    clim = 210 if tier == "quick" else 1100
+    nc = len(consts.size_cases(clim))
     for form in range(6):
         for which in ((0,) if form in (4, 5) else ((0, 2) if tier == "quick" else (0, 1, 2))):
             for pat in ((5,) if (tier == "quick" or form not in (0, 3)) else (0, 4, 5)):
-                obs.append(Ob(name=f"big_f{form}_w{which}_p{pat}", params=[("k", "int")], pre=[f"0 <= k < {nsz if form in (0, 2, 3) else nc}"], call=f"H.big_entry({which}, k, {form}, {pat})",
+                obs.append(Ob(name=f"big_f{form}_w{which}_p{pat}", params=[("k", "int")], pre=[f"0 <= k < {nsz if form in (0, 2, 3) else nc}"], call=f"H.big_entry({which}, k, {form}, {pat}, {clim})",
                               backend="P", timeout=900, family="size / count: argument, command or environment value of c-1, c, c+1 characters; c-1, c, c+1 arguments, variables or other servers"))
     return obs
 
